@@ -80,6 +80,7 @@ def run_case(case) -> Result:
             exc_violation(res, o, f"evidence(c, {obs})")
             return res
         e = o.value
+        res.features |= {f for f in structs.circuit_features(e) if f.startswith("in:evidence")}
         want_scope = set(ids) - set(z)
         if set(structs.circuit_scope(e)) != want_scope or set(e.scope) != want_scope:
             res.violate("wrong-scope", f"evidence over {z}: result scope {sorted(e.scope)}, expected {sorted(want_scope)}")
